@@ -167,7 +167,7 @@ def log_checks(log, edges, out, stored_before=None, t_recovery=None, victim_pid=
 def one_run(rng, mode, params=None):
     """mode: 'term' | 'int' | 'kill'.  -> (replay params, findings)"""
     params = dict(params or {})
-    defaults = [('shape', lambda: rng.choice(sorted(SHAPES))), ('dur', lambda: rng.choice([0.3, 0.5])), ('nworkers', lambda: rng.choice([1, 2, 2])),
+    defaults = [('shape', lambda: rng.choice(sorted(SHAPES))), ('dur', lambda: rng.choice([0.5, 0.8])), ('nworkers', lambda: rng.choice([1, 2, 2])),
                 ('victim', lambda: rng.randrange(params['nworkers'])),
                 ('when', lambda: rng.choice(['in-function', 'in-function', 'in-wait-loop']) if mode != 'kill' else rng.choice(['in-function', 'random-time', 'random-time'])),
                 ('delay', lambda: round(rng.uniform(0.0, 1.5), 3)),
@@ -250,46 +250,64 @@ def one_run(rng, mode, params=None):
                 if v is not None and v != ref[i]:
                     found.append({'what': 'process-run: a stored result is wrong after the signal', 'task': i})
             vt = open_tasks(log1, victim.pid)
+            # did the stop request really arrive at an instant the property speaks about?  (inside a task function: the victim has a
+            # start record from before the signal and no end record for it; in the wait loop: the victim never started anything and the
+            # task everything depends on was still running well after the signal).  Under heavy machine load the signal can be late;
+            # such runs are counted but not judged.
+            valid = True
             if mode in ('term', 'int') and delivered:
-                later = [i for k, pid, i, ts in log1 if k == 'S' and pid == victim.pid and ts > params['t_sig']]
-                if later:
-                    found.append({'what': 'process-run: a signalled worker goes on to start another task', 'tasks': later})
-            if mode in ('term', 'int'):
-                if delivered and victim.returncode == 0 and vt:
-                    found.append({'what': 'process-run: a signalled worker exits with status 0 in the middle of a task'})
-                if locks1:
-                    found.append({'what': 'process-run: locks are left after a worker was stopped by a signal', 'locks': locks1,
-                                  'victim_open_tasks': vt})
-                for i in vt:
-                    others = [1 for k, p, j, _ in log1 if k == 'E' and j == i and p != victim.pid]
-                    if res1[i] is not None and not others:
-                        found.append({'what': 'process-run: the interrupted task has a result', 'task': i})
+                t_sig = params['t_sig']
+                if params['when'] == 'in-wait-loop':
+                    started = [1 for k, pid, i, ts in log1 if k == 'S' and pid == victim.pid and ts <= t_sig + 0.25]
+                    e0 = [ts for k, pid, i, ts in log1 if k == 'E' and i == 0 and pid != victim.pid]
+                    valid = not started and (not e0 or min(e0) > t_sig + 0.25)
+                else:
+                    first_open = [ts for k, pid, i, ts in log1 if k == 'S' and pid == victim.pid and i in vt]
+                    valid = bool(vt) and min(first_open) <= t_sig
+            params['valid_instant'] = valid
+            if valid:
+                if mode in ('term', 'int') and delivered:
+                    later = [i for k, pid, i, ts in log1 if k == 'S' and pid == victim.pid and ts > params['t_sig']]
+                    if later:
+                        found.append({'what': 'process-run: a signalled worker goes on to start another task', 'tasks': later})
+                if mode in ('term', 'int'):
+                    if delivered and victim.returncode == 0 and vt:
+                        found.append({'what': 'process-run: a signalled worker exits with status 0 in the middle of a task'})
+                    if locks1:
+                        found.append({'what': 'process-run: locks are left after a worker was stopped by a signal', 'locks': locks1,
+                                      'victim_open_tasks': vt})
+                    for i in vt:
+                        others = [1 for k, p, j, _ in log1 if k == 'E' and j == i and p != victim.pid]
+                        if res1[i] is not None and not others:
+                            found.append({'what': 'process-run: the interrupted task has a result', 'task': i})
+                else:
+                    # SIGKILL: residue = at most the locks of the killed worker
+                    for t, (state, pid) in locks1.items():
+                        if not delivered or not isinstance(t, int) or (pid is not None and pid != victim.pid):
+                            found.append({'what': 'process-run: a lock is left that does not belong to the killed worker', 'lock': t, 'pid': pid,
+                                          'victim': victim.pid})
+                    if len(locks1) > 1:
+                        found.append({'what': 'process-run: more than one lock left by one killed worker', 'locks': locks1})
+                    rc, out = core.sh(jug_cmd('cleanup', root, ['--locks-only']), cwd=root, env=py_env(), timeout=120)
+                    _, locks_after, _ = load_state(root, edges)
+                    if rc != 0 or locks_after:
+                        found.append({'what': 'process-run: cleanup --locks-only does not remove the locks', 'rc': rc, 'locks': locks_after})
+                # the follow-up run finishes everything
+                t_rec = time.time()
+                p = start_worker(root)
+                ok = wait_all([p], 90)
+                res2, locks2, temps2 = load_state(root, edges)
+                log2 = read_log(root)
+                if not ok or p.returncode != 0:
+                    found.append({'what': 'process-run: the follow-up execute fails', 'rc': p.returncode})
+                for i, v in enumerate(res2):
+                    if v != ref[i]:
+                        found.append({'what': 'process-run: after the follow-up execute a result is missing or wrong', 'task': i})
+                if locks2:
+                    found.append({'what': 'process-run: locks left after the follow-up execute', 'locks': locks2})
+                log_checks(log2, edges, found, stored_before=res1, t_recovery=t_rec, victim_pid=victim.pid, t_sig=params.get('t_sig'))
             else:
-                # SIGKILL: residue = at most the locks of the killed worker
-                for t, (state, pid) in locks1.items():
-                    if not delivered or not isinstance(t, int) or (pid is not None and pid != victim.pid):
-                        found.append({'what': 'process-run: a lock is left that does not belong to the killed worker', 'lock': t, 'pid': pid,
-                                      'victim': victim.pid})
-                if len(locks1) > 1:
-                    found.append({'what': 'process-run: more than one lock left by one killed worker', 'locks': locks1})
-                rc, out = core.sh(jug_cmd('cleanup', root, ['--locks-only']), cwd=root, env=py_env(), timeout=120)
-                _, locks_after, _ = load_state(root, edges)
-                if rc != 0 or locks_after:
-                    found.append({'what': 'process-run: cleanup --locks-only does not remove the locks', 'rc': rc, 'locks': locks_after})
-            # the follow-up run finishes everything
-            t_rec = time.time()
-            p = start_worker(root)
-            ok = wait_all([p], 90)
-            res2, locks2, temps2 = load_state(root, edges)
-            log2 = read_log(root)
-            if not ok or p.returncode != 0:
-                found.append({'what': 'process-run: the follow-up execute fails', 'rc': p.returncode})
-            for i, v in enumerate(res2):
-                if v != ref[i]:
-                    found.append({'what': 'process-run: after the follow-up execute a result is missing or wrong', 'task': i})
-            if locks2:
-                found.append({'what': 'process-run: locks left after the follow-up execute', 'locks': locks2})
-            log_checks(log2, edges, found, stored_before=res1, t_recovery=t_rec, victim_pid=victim.pid, t_sig=params.get('t_sig'))
+                log2 = log1
             params['log'] = ['%s %d %d' % (k, pid, i) for k, pid, i, _ in log2]
             params['victim_pid'] = victim.pid
             params['locks_after_signal'] = {str(k): v for k, v in locks1.items()}
@@ -314,7 +332,8 @@ def _runs(ck, n, modes, presets=()):
         else:
             preset = None
         params, found = one_run(ck.rng, mode, preset)
-        ck.count('process-run:%s:%s:%s' % (mode, params['when'], 'delivered' if params.get('delivered') else 'too-late'))
+        ck.count('process-run:%s:%s:%s' % (mode, params['when'], ('delivered' if params.get('valid_instant') else 'delivered at an instant outside the property (not judged)')
+                                           if params.get('delivered') else 'too-late'))
         for o in params['opts']:
             ck.count('process-run:%s:option %s' % (mode, o))
         if params.get('temp_files_after_signal'):
@@ -344,6 +363,16 @@ def kill_runs(ck, n):
 
 def replay(obj):
     import random
+    if obj.get('mode') == 'failure':
+        params = {k: v for k, v in obj['params'].items() if k in ('shape', 'keep_going', 'keep_failed', 'barrier')}
+        p, found = failure_run(random.Random(0), params)
+        print('log:', p.get('log'), 'exit statuses:', p.get('statuses'))
+        print('expected (recorded):', obj.get('what'))
+        for f in found:
+            print('observed:', json.dumps(f, default=repr))
+        if not found:
+            print('observed: no violation on this tree')
+        return 1 if found else 0
     params = {k: v for k, v in obj['params'].items() if k in ('shape', 'dur', 'nworkers', 'victim', 'when', 'delay', 'nth', 'opts')}
     p, found = one_run(random.Random(0), obj['mode'], params)
     print('log:', p.get('log'))
@@ -353,3 +382,149 @@ def replay(obj):
     if not found:
         print('observed: no violation on this tree (real-time process runs are not exactly reproducible)')
     return 1 if found else 0
+
+
+# ================================================================ C11: failing tasks through the real `jug execute` command
+FAIL_JUGFILE = '''import os, time
+from jug import TaskGenerator, barrier
+
+LOG = %(log)r
+EDGES = %(edges)r
+FAIL = %(fail)r
+BARRIER_AFTER = %(barrier)r
+
+
+def _rec(kind, i):
+    fd = os.open(LOG, os.O_WRONLY | os.O_APPEND | os.O_CREAT, 0o644)
+    try:
+        os.write(fd, ('%%s %%d %%d %%.4f\\n' %% (kind, os.getpid(), i, time.time())).encode('ascii'))
+    finally:
+        os.close(fd)
+
+
+@TaskGenerator
+def node(i, *deps):
+    _rec('S', i)
+    if i in FAIL:
+        _rec('B', i)
+        raise RuntimeError('task %%d fails' %% i)
+    _rec('E', i)
+    return ('node', i, list(deps))
+
+
+tasks = []
+for i, ds in enumerate(EDGES):
+    tasks.append(node(i, *[tasks[d] for d in ds]))
+    if i == BARRIER_AFTER:
+        barrier()
+'''
+
+FAIL_SHAPES = {  # edges, failing set, barrier after task (None: no barrier) -> which tasks exist / can complete is computed below
+    'fork': ([[], [0], [0], [1]], [1]), 'chain': ([[], [0], [1]], [1]), 'indep': ([[], [], [], [2]], [0]), 'two': ([[], [0], [0], [1], [2]], [1, 2]),
+    'late': ([[], [0], [1], [0]], [2])}
+
+
+def failure_run(rng, params=None):
+    """one `jug execute` (flags) on a jugfile with failing tasks, optionally with a barrier; then a second execute; then
+    `cleanup --failed-only` and a third.  -> (params, findings)"""
+    params = dict(params or {})
+    for k, f in [('shape', lambda: rng.choice(sorted(FAIL_SHAPES))), ('keep_going', lambda: rng.random() < 0.5), ('keep_failed', lambda: rng.random() < 0.5),
+                 ('barrier', lambda: rng.choice([None, None, 0, 1, 2]))]:
+        v = f()
+        params.setdefault(k, v)
+    edges, fail = FAIL_SHAPES[params['shape']]
+    n = len(edges)
+    bar = params['barrier']
+    flags = (['--keep-going'] if params['keep_going'] else []) + (['--keep-failed'] if params['keep_failed'] else [])
+    # which tasks have a value at all
+    bad = set(fail)
+    for i, ds in enumerate(edges):
+        if any(d in bad for d in ds):
+            bad.add(i)
+    # the barrier passes only when every task defined before it is complete: tasks after a blocked barrier are never defined
+    defined = list(range(n))
+    if bar is not None and any(i in bad for i in range(bar + 1)):
+        defined = list(range(bar + 1))
+    found = []
+    with jugrun.scratch_dir('jugvf') as root:
+        with open(os.path.join(root, 'jf.py'), 'w') as f:
+            f.write(FAIL_JUGFILE % {'log': os.path.join(root, 'log'), 'edges': edges, 'fail': sorted(fail), 'barrier': bar})
+
+        def execute(extra=()):
+            p = start_worker(root, nr_wait=2, cycle=0, opts=list(flags) + list(extra))
+            if not wait_all([p], 120):
+                found.append({'what': 'process-run: jug execute did not terminate'})
+            p.errf.close()
+            return p
+
+        def state():
+            code = ('import sys, json; from jug.backends.file_store import file_store; st=file_store(%r); '
+                    'print(json.dumps([[k.decode(), st.load(k)] for k in st.list()], default=list))' % os.path.join(root, 'jd'))
+            rc, out = core.sh([sys.executable, '-c', code], cwd=root, env=py_env(), timeout=120)
+            vals = json.loads([l for l in out.splitlines() if l.startswith('[')][-1])
+            from jug.backends.file_store import file_store
+            st = file_store(os.path.join(root, 'jd'))
+            locks = sorted(('failed' if st.getlock(nm).is_failed() else 'held') for nm in st.listlocks())
+            return sorted(v[1][1] for v in vals), locks
+
+        def judge(p, lo, tag):
+            log = [r for r in read_log(root)[lo:] if r[1] == p.pid]
+            saw = any(r[0] == 'B' for r in log)
+            if (p.returncode != 0) != saw:
+                found.append({'what': 'process-run: exit status of jug execute does not tell whether the worker saw a failure', 'run': tag,
+                              'status': p.returncode, 'saw_failure': saw})
+            return log
+
+        ref = reference(edges)
+        p1 = execute()
+        log1 = judge(p1, 0, 'first')
+        stored, locks = state()
+        for i in stored:
+            if i in bad:
+                found.append({'what': 'process-run: a result is stored for a failed task or a dependent of one', 'task': i})
+        for r in log1:
+            if r[0] == 'S' and r[2] in bad and r[2] not in fail:
+                found.append({'what': 'process-run: a dependent of a failed task was started', 'task': r[2]})
+        if params['keep_going']:
+            for i in defined:
+                if i not in bad and i not in stored:
+                    found.append({'what': 'process-run: keep-going: an independent task has no result', 'task': i, 'stored': stored})
+        executed_fail = sorted(set(r[2] for r in log1 if r[0] == 'B'))
+        want_locks = ['failed'] * len(executed_fail) if params['keep_failed'] else []
+        if locks != want_locks:
+            found.append({'what': 'process-run: lock table after a run with failures is wrong', 'locks': locks, 'expected': want_locks})
+        n1 = len(read_log(root))
+        p2 = execute()
+        log2 = judge(p2, n1, 'second')
+        if params['keep_failed']:
+            again = [r[2] for r in log2 if r[0] == 'S' and r[2] in executed_fail]
+            if again:
+                found.append({'what': 'process-run: keep-failed: a failed task was executed again before the failed locks were released', 'tasks': again})
+            core.sh(jug_cmd('cleanup', root, ['--failed-only']), cwd=root, env=py_env(), timeout=120)
+            _, locks3 = state()
+            if locks3:
+                found.append({'what': 'process-run: cleanup --failed-only leaves failed locks', 'locks': locks3})
+            n2 = len(read_log(root))
+            p3 = execute()
+            log3 = judge(p3, n2, 'third')
+            if not [r for r in log3 if r[0] == 'S' and r[2] in executed_fail]:
+                found.append({'what': 'process-run: a failed task is not retried after the failed locks were released'})
+        else:
+            if executed_fail and not [r for r in log2 if r[0] == 'S' and r[2] in fail]:
+                found.append({'what': 'process-run: a failed task is not retried by a later run (no keep-failed)'})
+        params['log'] = ['%s %d %d' % (k, pid, i) for k, pid, i, _ in read_log(root)]
+        params['statuses'] = [p1.returncode, p2.returncode]
+    return params, found
+
+
+FAILURE_PRESETS = ({'shape': 'fork', 'keep_going': True, 'keep_failed': True, 'barrier': 1}, {'shape': 'fork', 'keep_going': True, 'keep_failed': False, 'barrier': None},
+                   {'shape': 'chain', 'keep_going': False, 'keep_failed': True, 'barrier': None}, {'shape': 'indep', 'keep_going': False, 'keep_failed': False, 'barrier': 0},
+                   {'shape': 'two', 'keep_going': True, 'keep_failed': True, 'barrier': 2}, {'shape': 'late', 'keep_going': True, 'keep_failed': False, 'barrier': 1})
+
+
+def failure_runs(ck, n):
+    for i in range(n):
+        params, found = failure_run(ck.rng, FAILURE_PRESETS[i] if i < len(FAILURE_PRESETS) else None)
+        ck.count('process-run:failing-task:kg=%d,kf=%d,barrier=%s' % (params['keep_going'], params['keep_failed'], 'yes' if params['barrier'] is not None else 'no'))
+        for f in found:
+            ck.violation({'kind': 'process-run', 'what': f['what'], 'finding': f, 'mode': 'failure', 'params': params}, found_input=True)
